@@ -15,7 +15,7 @@ func (c02) ID() string { return "C02" }
 
 func (c02) Budget(tier string) int {
 	if tier == "thorough" {
-		return 80000
+		return 600000
 	}
 	return 30000
 }
